@@ -206,7 +206,16 @@ class RxWorld:
         n_ops = min(50 if big else 30, 3 + int(rng.expovariate(1 / (14.0 if big else 9.0))))
         ops = []
         for _ in range(n_ops):
-            k = weighted(rng, [('set', 5), ('bad', 1.5), ('read', 7), ('watch', 1), ('build', 1.5 if n_lazy else 0), ('mut', 0.8)])
+            on_holder = [i for i, inp in enumerate(inputs) if inp['k'] != 'rx']
+            k = weighted(rng, [('set', 5), ('bad', 1.5), ('read', 7), ('watch', 1), ('build', 1.5 if n_lazy else 0), ('mut', 0.8),
+                               ('follow', 0.8), ('setmany', 1.5 if len(on_holder) > 1 else 0)])
+            if k == 'follow':
+                ops.append({'op': 'follow', 'n': rng.randrange(len(nodes) - n_lazy)})
+                continue
+            if k == 'setmany':
+                chosen = rng.sample(on_holder, rng.randint(2, min(3, len(on_holder))))
+                ops.append({'op': 'setmany', 'items': [[i, self.gen_value(rng, inputs[i]['t'], valid=rng.random() < 0.9)] for i in chosen]})
+                continue
             if k == 'mut':
                 ops.append({'op': 'mut', 'i': rng.randrange(n_in), 'v': rng.randint(1, 9), 'batch': rng.random() < 0.5})
                 continue
@@ -678,6 +687,10 @@ class RxWorld:
             if not check_read(0, j, 'initial read of'):
                 return out
         watches = {}        # node -> list of received values
+        followers = []      # (node, object following it as a reference)
+
+        class Follower(param.Parameterized):
+            v = param.Parameter(allow_refs=True)
         read_before = set()
         reread_after_change = False
         raised_seen = False
@@ -714,6 +727,43 @@ class RxWorld:
                                 viol('C09.watch', step, f"after input {i} = {op['v']!r} the value of watched node {j} is {after[j][1]!r} but the callback last "
                                                         f"received {seen[-1] if seen else '<nothing>'!r}")
                                 break
+            elif k == 'follow':
+                # an object follows the expression as a reference: its synchronisation is one more internal consumer that
+                # evaluates the expression while the inputs' changes are being announced (nothing else changes)
+                j = op['n'] % len(built)
+                if len(followers) >= 2 or plain(j)[0] == 'exc':
+                    continue
+                try:
+                    followers.append((j, Follower(v=built[j])))
+                except Exception as ex:      # noqa
+                    viol('C09.exception', step, f"an object following node {j} as a reference could not be built: {type(ex).__name__}: {str(ex)[:120]}")
+                    break
+                out.log.append(f"{step} an object follows node {j}")
+                out.stats['probe.object_follows_an_expression'] += 1
+            elif k == 'setmany':
+                # several inputs living on one object updated in one param.update: one batch, watchers called at its end
+                items = [(i % len(inputs), v) for i, v in op['items'] if inputs[i % len(inputs)]['k'] != 'rx']
+                if len({i for i, _ in items}) < 2:
+                    continue
+                for i, v in items:
+                    if loosely_equal(vals[i], v) and not eq_val(vals[i], v):
+                        out.stats['probe.update_with_equal_value_of_another_type'] += 1
+                    vals[i] = v
+                try:
+                    h.param.update(**{f"p{i}": v for i, v in items})
+                    raised = None
+                except Exception as ex:      # noqa
+                    raised = type(ex).__name__
+                out.log.append(f"{step} update " + ', '.join(f"input{i} = {v!r}" for i, v in items) + (f" (raised {raised})" if raised else ''))
+                out.stats['probe.several_inputs_updated_in_one_batch'] += 1
+                if followers:
+                    out.stats['probe.batch_update_with_following_object'] += 1
+                anybad = any(plain(j)[0] == 'exc' for j in range(len(built)))
+                if anybad:
+                    raised_seen = True
+                if raised and not anybad:
+                    viol('C09.watch', step, f"updating inputs {[i for i, _ in items]} in one batch raised {raised} although every expression evaluates in plain Python")
+                    break
             elif k == 'mut':
                 # an input (a Parameter holding a list) is mutated in place and the change announced with param.trigger, possibly
                 # from inside a batch (where the trigger is delivered like an ordinary event for an unchanged object)
